@@ -1384,7 +1384,7 @@ void reb_calculate_and_apply_jerk(struct reb_simulation* r, const double v){
 #ifndef OPENMP
                 if (reb_sigint > 1) return;
 #endif // OPENMP
-                for (int j=startj; j<i; j++){
+                for (int j=startj; j<_N_active; j++){ // test particles do not interact with each other
                     const double dx = particles[i].x - particles[j].x; 
                     const double dy = particles[i].y - particles[j].y; 
                     const double dz = particles[i].z - particles[j].z; 
